@@ -22,6 +22,7 @@ import (
 	"strings"
 	"syscall"
 	"testing"
+	"time"
 
 	"github.com/cnotch/ipchub/provider/auth"
 	"github.com/cnotch/ipchub/provider/route"
@@ -708,4 +709,108 @@ func TestCrashPointsStrace(t *testing.T) {
 			return pts
 		},
 		"strace")
+}
+
+// An edit that arrives while a flush is doing its file I/O (the periodic flush
+// runs on its own goroutine; administrators edit through the API at any time)
+// must not be lost: it is either part of that flush or of the next one, and a
+// restart after the next flush loads exactly the table in memory. The schedule
+// is owned through the crash-point callback (utils.VerifSetIOHook): when the
+// flush reaches a generated file-system step, the edit is started and given a
+// grace to finish or to block on the table lock.
+func TestEditDuringFlush(t *testing.T) {
+	evid.Checks(250, 4000)
+	dir := scratch(t)
+	defer os.RemoveAll(dir)
+	defer utils.VerifSetIOHook(nil)
+	n := 0
+	rapid.Check(t, func(t *rapid.T) {
+		n++
+		evid.Eval(1)
+		kind := rapid.SampledFrom([]string{"users", "routes"}).Draw(t, "kind")
+		file := filepath.Join(dir, fmt.Sprintf("during-%s-%d.json", kind, n))
+		defer restore(file, nil, false)
+		point := rapid.SampledFrom(utils.VerifCrashPoints).Draw(t, "ioPoint")
+		var hist []string
+		fired := make(chan struct{}, 1)
+		done := make(chan struct{})
+		var edit func()
+		armed := false
+		utils.VerifSetIOHook(func(name string) {
+			if !armed || name != point {
+				return
+			}
+			armed = false
+			go func() { edit(); close(done) }()
+			select {
+			case <-done: // the edit finished inside the flush's I/O window
+			case <-time.After(15 * time.Millisecond): // it is waiting for the flush to end: fine too
+			}
+			fired <- struct{}{}
+		})
+		var inMemory func() []string
+		var reload func() []string
+		var flush func() error
+		if kind == "users" {
+			auth.JSON.Configure(map[string]interface{}{"file": file})
+			auth.Reset(auth.JSON)
+			model := defaultUsers()
+			for i, k := 0, rapid.IntRange(1, 4).Draw(t, "before"); i < k; i++ {
+				o := genUserOp(t, true)
+				applyUserImpl(o)
+				applyUserModel(model, o)
+				hist = append(hist, fmt.Sprintf("%+v", o))
+			}
+			during := genUserOp(t, true)
+			hist = append(hist, fmt.Sprintf("flush; inside its I/O at %q: %+v", point, during))
+			edit = func() { applyUserImpl(during) }
+			applyUserModel(model, during)
+			inMemory = func() []string { return usersOfModel(model) }
+			flush = auth.Flush
+			reload = func() []string { auth.Reset(auth.JSON); return usersOf(auth.All()) }
+		} else {
+			route.JSON.Configure(map[string]interface{}{"file": file})
+			route.Reset(route.JSON)
+			model := &refmodel.RouteTable{}
+			for i, k := 0, rapid.IntRange(1, 4).Draw(t, "before"); i < k; i++ {
+				o := genRouteOp(t, true)
+				applyRouteImpl(o)
+				applyRouteModel(model, o)
+				hist = append(hist, fmt.Sprintf("%+v", o))
+			}
+			during := genRouteOp(t, true)
+			hist = append(hist, fmt.Sprintf("flush; inside its I/O at %q: %+v", point, during))
+			edit = func() { applyRouteImpl(during) }
+			applyRouteModel(model, during)
+			inMemory = func() []string { return routesOfModel(model) }
+			flush = route.Flush
+			reload = func() []string { route.Reset(route.JSON); return routesOf(route.All()) }
+		}
+		armed = true
+		if err := flush(); err != nil {
+			evid.Violation(t, "flush-error", hist, "Flush: %v", err)
+		}
+		select {
+		case <-fired:
+		default:
+			// the flush had nothing to write or never reached the point: run the edit now
+			armed = false
+			edit()
+			close(done)
+		}
+		<-done
+		// the next flush (e.g. the one at shutdown), then a restart
+		if err := flush(); err != nil {
+			evid.Violation(t, "flush-error", hist, "second Flush: %v", err)
+		}
+		want := inMemory()
+		if got := reload(); !eq(got, want) {
+			evid.Violation(t, "edit-during-flush-lost", hist, "an edit made while a flush was writing (%s) is missing after the next flush + restart: loaded %q, table in memory was %q", point, got, want)
+		}
+		evid.Class("edit during flush I/O at " + point + " (" + kind + ")")
+		evid.Nontrivial(evid.FP("during", kind, point, fmt.Sprint(hist)))
+		if evid.WantSample("during-flush") {
+			evid.Sample("during-flush", hist)
+		}
+	})
 }
